@@ -49,6 +49,18 @@ impl<A: Al, const N: usize> Shape for S<A, N> {
     }
 }
 
+/// a transparent wrapper: the same allocation seen through a different vtable
+#[repr(transparent)]
+pub struct Wrap<T>(pub T);
+impl<T: Shape> DynShape for Wrap<T> {
+    fn check(&self, seed: u8) -> bool {
+        self.0.ok(seed)
+    }
+    fn sz(&self) -> usize {
+        size_of::<T>() + 1_000_000
+    }
+}
+
 pub trait DynShape {
     fn check(&self, seed: u8) -> bool;
     fn sz(&self) -> usize;
@@ -144,6 +156,49 @@ fn two_words<T>(name: &str) {
     }
 }
 
+/// stable-address marker traits (autoref probe: a missing impl is reported, not a build failure)
+#[cfg(feature = "sdt")]
+fn markers<H: Shape, E: Shape>(cx: &Ctx) {
+    use stable_deref_trait::{CloneStableDeref, StableDeref};
+    use std::marker::PhantomData;
+    struct Pr<T: ?Sized>(PhantomData<T>);
+    trait NoStable {
+        fn stable(&self) -> bool {
+            false
+        }
+    }
+    trait NoClone {
+        fn clone_stable(&self) -> bool {
+            false
+        }
+    }
+    impl<T: ?Sized> NoStable for &Pr<T> {}
+    impl<T: ?Sized> NoClone for &Pr<T> {}
+    impl<T: ?Sized + StableDeref> Pr<T> {
+        fn stable(&self) -> bool {
+            true
+        }
+    }
+    impl<T: ?Sized + CloneStableDeref> Pr<T> {
+        fn clone_stable(&self) -> bool {
+            true
+        }
+    }
+    macro_rules! both {
+        ($t:ty, $n:expr) => {
+            if !(&Pr::<$t>(PhantomData)).stable() || !(&Pr::<$t>(PhantomData)).clone_stable() {
+                viol::report(P11, "P.stable-deref-marker", format!("{}: {} does not implement StableDeref + CloneStableDeref", cx.what, $n));
+            }
+        };
+    }
+    both!(Arc<E>, "Arc<T>");
+    both!(Arc<[E]>, "Arc<[T]>");
+    both!(Arc<str>, "Arc<str>");
+    both!(Arc<dyn DynShape>, "Arc<dyn Trait>");
+    both!(Arc<HeaderSlice<H, [E]>>, "Arc<HeaderSlice<H,[T]>>");
+    both!(Arc<HeaderSlice<H, str>>, "Arc<HeaderSlice<H,str>>");
+}
+
 // ------------------------------------------------------------------------------------
 // family 0: sized value E; every constructor x clones x release path
 // ------------------------------------------------------------------------------------
@@ -154,6 +209,8 @@ fn fam_sized<E: Shape>(cx: &mut Ctx, p: &ByteCase) {
     let nclones = pick(p.p(6), 4);
     let path = pick(p.p(7), 15);
     cx.release_differs = path != 0;
+    #[cfg(feature = "sdt")]
+    markers::<H, E>(cx);
     one_word::<Arc<E>>("Arc<T>");
     one_word::<OffsetArc<E>>("OffsetArc<T>");
     one_word::<UniqueArc<E>>("UniqueArc<T>");
@@ -307,6 +364,17 @@ fn fam_sized<E: Shape>(cx: &mut Ctx, p: &ByteCase) {
             let raw2: *const E = lib!(Arc::into_raw(c2));
             let d2: Arc<dyn DynShape> = lib!(unsafe { Arc::from_raw(raw2 as *const dyn DynShape) });
             let d3 = lib!(d1.clone());
+            // ... and one through a different vtable (documented: ptr_eq ignores the metadata of dyn pointers)
+            let c3 = lib!(d1.clone());
+            let raw3: *const dyn DynShape = lib!(Arc::into_raw(c3));
+            let d4: Arc<dyn DynShape> = lib!(unsafe { Arc::from_raw(raw3 as *const E as *const Wrap<E> as *const dyn DynShape) });
+            if d4.sz() == d1.sz() {
+                viol::report(&["C11"], "M.harness", "harness: the wrapper view did not get its own vtable".into());
+            }
+            if !Arc::ptr_eq(&d1, &d4) || d4.heap_ptr() != d1.heap_ptr() || !d4.check(dseed) {
+                viol::report(P11, "P.dyn-ptr-eq-vtable", format!("{}: two trait-object handles to one allocation with different vtables are not ptr_eq (or differ in heap_ptr / contents)", cx.what));
+            }
+            lib!(drop(d4));
             if !Arc::ptr_eq(&d1, &d2) || !Arc::ptr_eq(&d1, &d3) || d1.heap_ptr() != d2.heap_ptr() {
                 viol::report(P11, "P.dyn-ptr-eq", format!("{}: trait-object handles to one allocation are not ptr_eq / differ in heap_ptr", cx.what));
             }
